@@ -49,6 +49,7 @@ func runC20(c *eng.Ctx) {
 	pooledTrieReloaded(c)
 	bucketIsTheUnionOfItsTries(c)
 	sortedTogetherAndReset(c)
+	terminatorLabelNeedsASibling(c)
 }
 
 // ---- (1) iterator keys -----------------------------------------------------------------------------------------------------------
